@@ -555,6 +555,7 @@ void LabeledDirectedGraph<EdgeLabel>::removeVertexFromEdgeList(
     auto &successors = adjacencyList[vertex];
     auto j = successors.begin();
     while (j != successors.end()) {
+        edgeLabels.erase({vertex, *j});
         successors.erase(j++);
         edgeNumber--;
     }
